@@ -60,6 +60,12 @@ func sym(v reflect.Value) string {
 			return "nil"
 		}
 		return "&" + sym(v.Elem())
+	case reflect.Struct:
+		var parts []string
+		for i := 0; i < v.NumField(); i++ {
+			parts = append(parts, sym(v.Field(i)))
+		}
+		return "{" + strings.Join(parts, ",") + "}"
 	}
 	return "?" + v.Kind().String()
 }
@@ -141,12 +147,22 @@ func fill(v reflect.Value, vec int, counter *int) {
 			s := reflect.MakeSlice(f.Type(), n, n+2)
 			for k := 0; k < n; k++ {
 				e := s.Index(k)
-				if e.Kind() == reflect.String {
+				val := int64(100 + *counter*3 + k)
+				if vec == 9 {
+					val = 9
+				}
+				switch e.Kind() {
+				case reflect.String:
 					e.SetString(fmt.Sprintf("e%d_%d", *counter, k))
-				} else if vec == 9 {
-					e.SetInt(9)
-				} else {
-					e.SetInt(int64(100 + *counter*3 + k))
+				case reflect.Ptr:
+					pv := reflect.New(e.Type().Elem())
+					pv.Elem().SetInt(val)
+					e.Set(pv)
+				case reflect.Struct:
+					e.Field(0).SetInt(val)
+					e.Field(1).SetString(fmt.Sprintf("m%d", val))
+				default:
+					e.SetInt(val)
 				}
 			}
 			f.Set(s)
@@ -187,6 +203,135 @@ func sliceLeaves(v reflect.Value, prefix string, out map[string]reflect.Value) {
 }
 
 type event map[string]interface{}
+
+// runOne executes one run: begin event, the call, call events, end event, observe event.
+// dstPtr is the copy target handed in (arg styles) or the zero Value (return styles).
+func runOne(enc *json.Encoder, pr prog, fn reflect.Value, ft reflect.Type, args []reflect.Value, srcPtr, dstPtr reflect.Value, vec int, faults []string, argVal int) {
+	vrt.Events = nil
+	argsSnap := map[string]string{"_": "_"}
+	if argVal >= 0 {
+		argsSnap["ARG0"] = vrt.Sym(argVal)
+	}
+	srcSnap := snap(srcPtr)
+	var dst0 map[string]string
+	if dstPtr.IsValid() {
+		dst0 = snap(dstPtr)
+	} else {
+		rt := ft.Out(0)
+		if rt.Kind() == reflect.Ptr {
+			rt = rt.Elem()
+		}
+		dst0 = snap(reflect.New(rt))
+	}
+	hk := func(h hook) map[string]interface{} {
+		ha := map[string]string{"_": "_"}
+		if h.On && h.Args && argVal >= 0 {
+			ha["ARG0"] = vrt.Sym(argVal)
+		}
+		return map[string]interface{}{"on": h.On, "dstPtr": h.DstPtr, "err": h.Err, "hargs": ha}
+	}
+	scal := map[string]bool{}
+	for _, s := range pr.Scalars {
+		scal[s] = true
+	}
+	scalars := []string{}
+	for p := range dst0 {
+		if scal[p] {
+			scalars = append(scalars, p)
+		}
+	}
+	sort.Strings(scalars)
+	_ = enc.Encode(event{"ev": "begin", "fn": pr.Name, "kinds": pr.Kinds, "style": pr.Style, "pre": hk(pr.Pre), "post": hk(pr.Post),
+		"src": srcSnap, "args": argsSnap, "dst0": dst0, "faults": faults, "vec": vec, "scalars": scalars})
+	var results []reflect.Value
+	panicked := ""
+	func() {
+		defer func() {
+			if e := recover(); e != nil {
+				panicked = fmt.Sprint(e)
+			}
+		}()
+		results = fn.Call(args)
+	}()
+	for _, e := range vrt.Events {
+		ev := event{"ev": "call", "site": e.Site, "fail": e.Fail}
+		if e.IsHook {
+			ev["seen"] = snap(reflect.ValueOf(e.Dst))
+			ev["srcSeen"] = snap(reflect.ValueOf(e.Src))
+			as := map[string]string{"_": "_"}
+			for i, a := range e.Args {
+				as[fmt.Sprintf("ARG%d", i)] = vrt.Sym(a.(int))
+			}
+			ev["argsSeen"] = as
+		}
+		_ = enc.Encode(ev)
+	}
+	errSite := "nil"
+	var dstV reflect.Value
+	if panicked == "" {
+		ri := 0
+		if dstPtr.IsValid() {
+			dstV = dstPtr
+		} else {
+			dstV = results[0]
+			ri = 1
+		}
+		if pr.RetErr {
+			if e, ok := results[ri].Interface().(error); ok && e != nil {
+				errSite = vrt.SiteOf(e)
+			}
+		}
+	}
+	end := event{"ev": "end", "err": errSite, "panicked": panicked != "", "panic": panicked, "src": snap(srcPtr), "args": argsSnap, "shared": []string{}}
+	okDst := panicked == "" && !(dstV.Kind() == reflect.Ptr && dstV.IsNil())
+	if okDst {
+		end["dst"] = snap(dstV)
+		srcSl := map[string]reflect.Value{}
+		sliceLeaves(srcPtr, "", srcSl)
+		dstSl := map[string]reflect.Value{}
+		sliceLeaves(dstV, "", dstSl)
+		shared := []string{}
+		for dp, dv := range dstSl {
+			if dv.IsNil() || dv.Cap() == 0 {
+				continue
+			}
+			for _, sv := range srcSl {
+				if !sv.IsNil() && sv.Cap() > 0 && sv.Pointer() == dv.Pointer() {
+					shared = append(shared, dp)
+				}
+			}
+		}
+		sort.Strings(shared)
+		end["shared"] = shared
+	} else {
+		end["dst"] = map[string]string{"_": "_"}
+	}
+	_ = enc.Encode(end)
+	// C16: overwrite every source slice element and look at the destination again
+	if okDst && errSite == "nil" {
+		srcSl := map[string]reflect.Value{}
+		sliceLeaves(srcPtr, "", srcSl)
+		for _, sv := range srcSl {
+			for k := 0; k < sv.Len(); k++ {
+				e := sv.Index(k)
+				switch e.Kind() {
+				case reflect.String:
+					e.SetString("overwritten")
+				case reflect.Ptr:
+					// replace the pointer itself (the pointee may legitimately be shared)
+					pv := reflect.New(e.Type().Elem())
+					pv.Elem().SetInt(555)
+					e.Set(pv)
+				case reflect.Struct:
+					e.Field(0).SetInt(555)
+				default:
+					e.SetInt(555)
+				}
+			}
+		}
+		_ = enc.Encode(event{"ev": "observe", "dst": snap(dstV)})
+	}
+}
 
 func main() {
 	var progs []prog
@@ -232,8 +377,18 @@ func main() {
 						faults = append(faults, s)
 					}
 				}
-				vrt.Events = nil
-				// operands
+				runs++
+				if pr.Style == "argrev" {
+					// func X(src *D, dst *S): the first operand is the copy source, the second the copy target
+					srcPtr := reflect.New(ft.In(0).Elem())
+					c0 := 0
+					fill(srcPtr.Elem(), vec, &c0)
+					dstPtr := reflect.New(ft.In(1).Elem())
+					c1 := 0
+					fill(dstPtr.Elem(), 9, &c1)
+					runOne(enc, pr, fn, ft, []reflect.Value{srcPtr, dstPtr}, srcPtr, dstPtr, vec, faults, -1)
+					continue
+				}
 				var args []reflect.Value
 				pi := 0
 				var dstPtr reflect.Value
@@ -250,121 +405,7 @@ func main() {
 				args = append(args, srcPtr)
 				argVal := 40 + vec
 				args = append(args, reflect.ValueOf(argVal))
-				argsSnap := map[string]string{"_": "_", "ARG0": vrt.Sym(argVal)}
-				srcSnap := snap(srcPtr)
-				var dst0 map[string]string
-				if pr.Style == "arg" {
-					dst0 = snap(dstPtr)
-				} else {
-					rt := ft.Out(0)
-					if rt.Kind() == reflect.Ptr {
-						rt = rt.Elem()
-					}
-					dst0 = snap(reflect.New(rt))
-				}
-				hk := func(h hook) map[string]interface{} {
-					ha := map[string]string{"_": "_"}
-					if h.On && h.Args {
-						ha["ARG0"] = vrt.Sym(argVal)
-					}
-					return map[string]interface{}{"on": h.On, "dstPtr": h.DstPtr, "err": h.Err, "hargs": ha}
-				}
-				scal := map[string]bool{}
-				for _, s := range pr.Scalars {
-					scal[s] = true
-				}
-				scalars := []string{}
-				for p := range dst0 {
-					if scal[p] {
-						scalars = append(scalars, p)
-					}
-				}
-				sort.Strings(scalars)
-				_ = enc.Encode(event{"ev": "begin", "fn": pr.Name, "kinds": pr.Kinds, "style": pr.Style, "pre": hk(pr.Pre), "post": hk(pr.Post),
-					"src": srcSnap, "args": argsSnap, "dst0": dst0, "faults": faults, "vec": vec, "scalars": scalars})
-				// the call
-				var results []reflect.Value
-				panicked := ""
-				func() {
-					defer func() {
-						if e := recover(); e != nil {
-							panicked = fmt.Sprint(e)
-						}
-					}()
-					results = fn.Call(args)
-				}()
-				for _, e := range vrt.Events {
-					ev := event{"ev": "call", "site": e.Site, "fail": e.Fail}
-					if e.IsHook {
-						ev["seen"] = snap(reflect.ValueOf(e.Dst))
-						ev["srcSeen"] = snap(reflect.ValueOf(e.Src))
-						as := map[string]string{"_": "_"}
-						for i, a := range e.Args {
-							as[fmt.Sprintf("ARG%d", i)] = vrt.Sym(a.(int))
-						}
-						ev["argsSeen"] = as
-					}
-					_ = enc.Encode(ev)
-				}
-				// the end
-				errSite := "nil"
-				var dstV reflect.Value
-				if panicked == "" {
-					ri := 0
-					if pr.Style == "arg" {
-						dstV = dstPtr
-					} else {
-						dstV = results[0]
-						ri = 1
-					}
-					if pr.RetErr {
-						if e, ok := results[ri].Interface().(error); ok && e != nil {
-							errSite = vrt.SiteOf(e)
-						}
-					}
-				}
-				end := event{"ev": "end", "err": errSite, "panicked": panicked != "", "panic": panicked, "src": snap(srcPtr), "args": argsSnap, "shared": []string{}}
-				okDst := panicked == "" && !(dstV.Kind() == reflect.Ptr && dstV.IsNil())
-				if okDst {
-					end["dst"] = snap(dstV)
-					srcSl := map[string]reflect.Value{}
-					sliceLeaves(srcPtr, "", srcSl)
-					dstSl := map[string]reflect.Value{}
-					sliceLeaves(dstV, "", dstSl)
-					shared := []string{}
-					for dp, dv := range dstSl {
-						if dv.IsNil() || dv.Cap() == 0 {
-							continue
-						}
-						for _, sv := range srcSl {
-							if !sv.IsNil() && sv.Cap() > 0 && sv.Pointer() == dv.Pointer() {
-								shared = append(shared, dp)
-							}
-						}
-					}
-					sort.Strings(shared)
-					end["shared"] = shared
-				} else {
-					end["dst"] = map[string]string{"_": "_"}
-				}
-				_ = enc.Encode(end)
-				// C16: overwrite every source slice element and look at the destination again
-				if okDst && errSite == "nil" {
-					srcSl := map[string]reflect.Value{}
-					sliceLeaves(srcPtr, "", srcSl)
-					for _, sv := range srcSl {
-						for k := 0; k < sv.Len(); k++ {
-							e := sv.Index(k)
-							if e.Kind() == reflect.String {
-								e.SetString("overwritten")
-							} else {
-								e.SetInt(555)
-							}
-						}
-					}
-					_ = enc.Encode(event{"ev": "observe", "dst": snap(dstV)})
-				}
-				runs++
+				runOne(enc, pr, fn, ft, args, srcPtr, dstPtr, vec, faults, argVal)
 			}
 		}
 	}
